@@ -1694,6 +1694,10 @@ def _monitor(case: dict, impl: dict) -> list[Violation]:
     def uname(u):
         return USERS[u]
 
+    def eff(v):
+        """what entitlement depends on: the mode, and the users list of a named-users directory"""
+        return None if v is None else (v[0], sorted(v[1]) if v[0] == 'users' else None)
+
     def apply_truth(op, o) -> bool:
         """book-keeping of one configuration op; True when it changed something"""
         k = op[0]
@@ -1713,7 +1717,7 @@ def _monitor(case: dict, impl: dict) -> list[Violation]:
             return ch
         if k == 'reload':
             new = {d: (m, list(us)) for d, m, us in op[1]}
-            ch = new != t.shared
+            ch = {d: eff(v) for d, v in new.items()} != {d: eff(v) for d, v in t.shared.items()}
             t.shared = new
             return ch
         if o['res'] != 'ok':
@@ -1725,7 +1729,7 @@ def _monitor(case: dict, impl: dict) -> list[Violation]:
             t.shared[op[1]] = (op[2], list(op[3]))
         # a call that leaves mode and users as they were is not a change of the shared directories (whether the code
         # announces it all the same is its own business)
-        return t.shared.get(op[1]) != old
+        return eff(t.shared.get(op[1])) != eff(old)
 
     def reconcile_violation(sig, what, observed, required):
         if flipped:
